@@ -270,9 +270,12 @@ def _required_lists(check_fn, mod=None):
     raises = [r for r in walk_no_nested(check_fn, False)
               if isinstance(r, ast.Raise) and "ModelIncompleteError" in
               norm(r)]
+    from ..symres import Resolver
+    Rc = Resolver(check_fn)
     for r in raises:
         conds = conditions_at(r)
-        colls = [a.text for a in conds if a.pol and isinstance(
+        colls = [(Rc.text(a.node) if hasattr(a.node, "_parent")
+                  else a.text) for a in conds if a.pol and isinstance(
             a.node, ast.Name)]
         outer = [_hasattr_key(a.text) for a in conds if a.pol]
         outer = [h for h in outer if h]
